@@ -4,6 +4,7 @@ import collections
 
 from vt.world import World
 from vt import monitors as M
+from vt.bus import order_fingerprint
 from ref import sniffer as SN
 from ref import codec as C
 
@@ -274,6 +275,7 @@ def run_scenario(case, layer):
                   messages=[(m['mode'], len(m['data']), 'ep%d' % m['src'], m['dst'], round(m['t'], 4), m['acc']) for m in msgs[:14]],
                   frames=len(W.bus.frames), deliveries=compared, violations=len(viol))
     res = dict(violations=list(viol), inconclusive=None, sig=repr(sig), nontrivial=multi > 0 and compared > 0, obs=obs, sample=sample)
+    res['fingerprint'] = order_fingerprint(W.bus.frames)
     if case.get('trace'):
         res['trace'] = [f.brief() for f in W.bus.frames[:400]]
     W.close()
